@@ -672,6 +672,15 @@ func (ex *extractor) chainOf(p *pkgInfo, e ast.Expr, methodParam string) (res ch
 				continue
 			}
 
+			// A helper of the same package that only composes wrappers around
+			// its parameter, func f(h) T { return a(b(h)) }, is expanded.
+			if sub, ok := ex.expandHelper(p, t, methodParam, 0); ok {
+				res.chain = append(res.chain, sub...)
+				e = t.Args[len(t.Args)-1]
+
+				continue
+			}
+
 			// A call the extractor has no meaning for: a constructor of the
 			// handler (http.FileServer(...)), or an unknown wrapper.  If one
 			// of its arguments is itself a call or a function value we treat
@@ -689,6 +698,39 @@ func (ex *extractor) chainOf(p *pkgInfo, e ast.Expr, methodParam string) (res ch
 
 		return res
 	}
+}
+
+// expandHelper returns the chain of a one-parameter helper whose body is a
+// single return of wrappers applied to that parameter.
+func (ex *extractor) expandHelper(p *pkgInfo, c *ast.CallExpr, methodParam string, depth int) (chain []string, ok bool) {
+	id, isID := c.Fun.(*ast.Ident)
+	if !isID || len(c.Args) != 1 || depth > 4 {
+		return nil, false
+	}
+
+	fd := p.funcs[id.Name]
+	if fd == nil || fd.Recv != nil || fd.Body == nil || len(fd.Body.List) != 1 {
+		return nil, false
+	}
+
+	ps := flatten(fd.Type.Params)
+	ret, isRet := fd.Body.List[0].(*ast.ReturnStmt)
+	if len(ps) != 1 || !isRet || len(ret.Results) != 1 {
+		return nil, false
+	}
+
+	sub := ex.chainOf(p, ret.Results[0], methodParam)
+	if sub.handler != ps[0].name && sub.handler != ps[0].name+".ServeHTTP" {
+		return nil, false
+	}
+
+	for _, w := range sub.chain {
+		if w == "ensure" || strings.HasPrefix(w, "opaque:") {
+			return nil, false
+		}
+	}
+
+	return sub.chain, true
 }
 
 // looksLikeWrapper: a call to a function declared in the same package whose
@@ -1055,6 +1097,22 @@ func (ex *extractor) walkBody(fc *fnCtx, body ast.Node) {
 
 	ast.Inspect(body, func(n ast.Node) bool {
 		switch t := n.(type) {
+		case *ast.FuncLit:
+			// A function literal with RegisterFunc's signature that registers
+			// something is an anonymous registrar: its body holds templates,
+			// not routes.  It is analysed where it is bound (addBinding).
+			if isRegSig(t.Type) && ex.containsReg(t.Body) {
+				id := "func@" + ex.site(t)
+				if ex.regs[id] == nil {
+					r := ex.analyseRegistrar(fc.p, id, t.Type, t.Body, t)
+					ex.regs[id] = r
+					if r.Err != "" {
+						ex.warnIn(fc.p, "anonymous registrar at %s: %s", r.Site, r.Err)
+					}
+				}
+
+				return false
+			}
 		case *ast.CallExpr:
 			ex.visitCall(fc, t)
 		case *ast.KeyValueExpr:
@@ -1108,10 +1166,12 @@ func (ex *extractor) addBinding(fc *fnCtx, at ast.Node, target string, v ast.Exp
 	case *ast.FuncLit:
 		if isRegSig(t.Type) {
 			id := "func@" + ex.site(t)
-			r := ex.analyseRegistrar(fc.p, id, t.Type, t.Body, t)
-			ex.regs[id] = r
-			if r.Err != "" {
-				ex.warn("anonymous registrar at %s: %s", r.Site, r.Err)
+			if ex.regs[id] == nil {
+				r := ex.analyseRegistrar(fc.p, id, t.Type, t.Body, t)
+				ex.regs[id] = r
+				if r.Err != "" {
+					ex.warnIn(fc.p, "anonymous registrar at %s: %s", r.Site, r.Err)
+				}
 			}
 
 			b.Kind = "registrar"
@@ -1298,6 +1358,9 @@ func renderTLA(o *Output) string {
 	sb.WriteString("(* One record per registration call found in the packages linked into the    *)\n")
 	sb.WriteString("(* binary, on the admin mux.  chain: wrappers, outermost first.  method: the  *)\n")
 	sb.WriteString("(* declared method (\"\" = any).  slash: the pattern that <pat>/ resolves to.   *)\n")
+	sb.WriteString("(* reg: for a registration through the RegisterFunc callback, the registrar  *)\n")
+	sb.WriteString("(* whose body gives the chain; with several registrars bound in the program  *)\n")
+	sb.WriteString("(* there is one record per registrar (over-approximation).                   *)\n")
 	fmt.Fprintf(&sb, "\\* repo: %s   GOOS: %s\n", o.Repo, strings.Join(o.GOOS, ","))
 	sb.WriteString("Routes == {\n")
 	first := true
@@ -1316,8 +1379,8 @@ func renderTLA(o *Output) string {
 			slash = slashTarget(pats, r.Pat+"/")
 		}
 
-		fmt.Fprintf(&sb, "  [pat |-> %s, method |-> %s, chain |-> %s, via |-> %s, mux |-> %s, site |-> %s,\n   subtree |-> %s, slash |-> %s, installPfx |-> %s, assetsPfx |-> %s]",
-			tlaStr(r.Pat), tlaStr(r.Method), tlaSeq(r.Chain), tlaStr(r.Via), tlaStr(r.Mux), tlaStr(r.Site),
+		fmt.Fprintf(&sb, "  [pat |-> %s, method |-> %s, chain |-> %s, via |-> %s, reg |-> %s, mux |-> %s, site |-> %s,\n   subtree |-> %s, slash |-> %s, installPfx |-> %s, assetsPfx |-> %s]",
+			tlaStr(r.Pat), tlaStr(r.Method), tlaSeq(r.Chain), tlaStr(r.Via), tlaStr(r.Registrar), tlaStr(r.Mux), tlaStr(r.Site),
 			tlaBool(strings.HasSuffix(r.Pat, "/")), tlaStr(slash),
 			tlaBool(strings.HasPrefix(r.Pat, "/install.")), tlaBool(strings.HasPrefix(r.Pat, "/assets/")))
 	}
